@@ -16,9 +16,11 @@
        result (C02_vm_runs_structured_blocks, C02_vm_runs_structured_expressions) - unbounded in size and nesting;
        execute_do, the loop of runtime.cpp, follows that path slice by slice, and a whole structured program loaded
        as the root frame ends with result `empty`, no frame and exactly the program's value (C02_structured_program_runs).
+       The statement `if c exitWith {..}` is covered too (VM/SimExit.v, C02_vm_runs_blocks_with_exit): a scope left
+       that way ends with the handler's value, nothing after it runs, everything the scope still held is dropped.
        NOT covered by the simulation: loops (while / for / forEach / count / select / apply / findIf), switch,
-       exitWith, breakOut, try / catch / throw, waitUntil, nil operands - for these the per-construct theorems below
-       and the program-level differential are the evidence;
+       exitWith inside an operand, breakOut, try / catch / throw, waitUntil, nil operands - for these the
+       per-construct theorems below and the program-level differential are the evidence;
      - the compiler emits the post-order of the source (code blocks, binary operators, arrays);
      - per-construct characterisations of the VM model: which block is entered, with which bindings, how often, and when a
        construct ends (lazy && / ||, if-then-else, exitWith, forEach, count, select, apply, findIf, for, while, switch with
@@ -31,7 +33,7 @@
    Properties_C05 (one value per scope, regions). *)
 From Coq Require Import String Ascii.
 From Coq Require Import ZArith List Bool Lia.
-From SqfVerif Require Import Gen.DiagCodes Gen.Overloads VM.VmDefs VM.VmExec VM.RefSem VM.C02Proofs VM.SimDefs VM.SimProofs VM.SimBlock VM.SimCtl VM.SimRun.
+From SqfVerif Require Import Gen.DiagCodes Gen.Overloads VM.VmDefs VM.VmExec VM.RefSem VM.C02Proofs VM.SimDefs VM.SimProofs VM.SimBlock VM.SimCtl VM.SimRun VM.SimExit.
 Import ListNotations.
 Local Open Scope string_scope.
 Local Open Scope list_scope.
@@ -302,4 +304,44 @@ Proof.
   split; [unfold Good; split; [reflexivity|cbn; auto 10]|]. split; [reflexivity|]. split.
   - split; [|reflexivity]. cbn. constructor; [|constructor]. repeat split.
   - split; [cbn; lia|reflexivity].
+Qed.
+
+(* ---- simulation with exitWith: a block has an outcome (ran to its end / was left by `if c exitWith {..}`), the bodies of
+   call / if-then / if-then-else may be left that way and handlers may nest (relation zev / zblock of VM/SimExit.v, which
+   contains xev / xblock).  The machine marks the scope as finished, runs the handler as a new frame, completes it,
+   completes the abandoned scope with the handler's value and drops whatever the scope still held. *)
+Theorem C02_ref_runs_blocks_with_exit : forall s reg b out s', zblock s reg b out s' ->
+  exists f0, forall f, f0 <= f -> eval_block f s b reg = (oc out, s').
+Proof. exact (proj2 (proj2 (proj2 ref_runs_z))). Qed.
+Print Assumptions C02_ref_runs_blocks_with_exit.
+Theorem C02_vm_runs_blocks_with_exit : forall s reg b out s', zblock s reg b out s' ->
+  forall r c f fc rest below pre, AtM s reg r c f (fc :: rest) below ->
+    f_code f = pre ++ compile_block b -> f_pos f = length pre -> f_exit f = None -> f_base fc <= length below ->
+    exists r' c' fc' rest', Steps r r' /\ Mach (pop_scope s') r' c' fc' rest' /\
+      c_values c' = cv (val_of out) :: below /\ kept fc fc' /\ Forall2 kept rest rest'.
+Proof. exact (proj2 (proj2 (proj2 vm_runs_z))). Qed.
+Print Assumptions C02_vm_runs_blocks_with_exit.
+Theorem C02_vm_runs_expressions_with_exit : forall s e v s', zev s e v s' ->
+  forall r c f rest pre post, Mach s r c f rest ->
+    f_code f = pre ++ compile_expr e ++ post -> f_pos f = length pre ->
+    exists r' c' f' rest', Steps r r' /\ Mach s' r' c' f' rest' /\ c_values c' = cv v :: c_values c /\
+      moved f f' /\ f_pos f' = f_pos f + length (compile_expr e) /\ Forall2 kept rest rest'.
+Proof. exact (proj1 vm_runs_z). Qed.
+Print Assumptions C02_vm_runs_expressions_with_exit.
+(* a derivation that uses it: r = call { x = 1; if (x > 0) exitWith { x + 10 }; x = 99; 0 }  - the scope is left with 11,
+   `x = 99` never runs *)
+Definition ex_exit : expr :=
+  EUnary "call" (ECode [SAssign "x" (ENum 1);
+                        SExpr (EBinary "exitWith" (EUnary "if" (EBinary ">" (EVar "x") (ENum 0))) (ECode [SExpr (EBinary "+" (EVar "x") (ENum 10))]));
+                        SAssign "x" (ENum 99); SExpr (ENum 0)]).
+Example exit_inhabited : exists v s', zev init_state ex_exit v s' /\ v = RNum 11 /\ glob_of s' "x" = Some (RNum 1).
+Proof.
+  eexists _, _. split.
+  { eapply ZCallU; [reflexivity|intros ? ?; discriminate|eapply ZCode|].
+    eapply ZBCons; [eapply ZSAssign; [discriminate|eapply ZPure; eapply PNum|split; discriminate]|].
+    eapply ZBExit; [reflexivity| | |].
+    - eapply ZIf; [reflexivity|intros ? ?; discriminate|]. eapply ZPure. eapply PBin; [eapply PVarG; reflexivity|eapply PNum|reflexivity].
+    - eapply ZCode.
+    - eapply ZBLast. eapply ZSExprV. eapply ZPure. eapply PBin; [eapply PVarG; reflexivity|eapply PNum|reflexivity]. }
+  split; reflexivity.
 Qed.
